@@ -1,6 +1,6 @@
 (* C02 property theorems: statements only; every proof is [exact lemma]. *)
 From Gv Require Import lib.Bytes lib.Json C02.Model C02.Spec C02.ProofsRefine2 C02.ProofsTypesafe
-     C02.ProofsWelltyped C02.ProofsNoErr C02.ProofsDenied.
+     C02.ProofsWelltyped C02.ProofsNoErr C02.ProofsDenied C02.ProofsTypename.
 Open Scope N_scope.
 
 (* non-vacuity: a well-formed plan with an abstract object, a nested list and an enum *)
@@ -176,4 +176,119 @@ Example c02_overlap_breaks_two_pass :
   r_render_err (resolve (fun _ _ => false) ex_overlap_plan ex_overlap_data) = true /\
   fst (complete_root (fun _ _ => false) ex_overlap_plan ex_overlap_data)
     = Some (JObj [([115], JStr [120]); ([111], JNull)]).
+Proof. vm_compute. split; reflexivity. Qed.
+
+(* ---- the abstract-type guard and the `__typename` leaf (seeded regressions C02-m6, C02-m8, C02-m9) ----
+   T1-T5 quantify over every (tyname, possible) pair and every data value; the statements below spell out
+   what they imply at the two guards.  [possible] lists the keys of the Go map PossibleTypes. *)
+
+(* T6: [is_abstract] is Object.isAbstract(): len(PossibleTypes) > 1, or exactly one possible type that is
+   not the object's own type name *)
+Theorem is_abstract_exact :
+  forall (ty : bytes) (possible : list bytes),
+    is_abstract ty possible = true <->
+    (1 < length possible)%nat \/ (length possible = 1%nat /\ ~ In ty possible).
+Proof. exact is_abstract_exact_lemma. Qed.
+Print Assumptions is_abstract_exact.
+
+(* T7: an entity interface (own name among two or more possible types) is abstract *)
+Theorem entity_interface_is_abstract :
+  forall (ty : bytes) (possible : list bytes),
+    In ty possible -> (1 < length possible)%nat -> is_abstract ty possible = true.
+Proof. exact entity_interface_is_abstract_lemma. Qed.
+Print Assumptions entity_interface_is_abstract.
+
+(* T8: data without a string "__typename" at an abstract position is never rendered as an object: null at
+   a nullable position / propagated otherwise, one EK_TYPENAME error at the position -- in the completion
+   semantics and in both passes of the implementation model *)
+Theorem abstract_without_typename :
+  forall (deny : bytes -> bytes -> bool) p nl ty possible inacc fields parent m path tns,
+    is_abstract ty possible = true ->
+    get_path p parent = Some (JObj m) ->
+    typename_of (JObj m) = None ->
+    complete deny (NObj p nl ty possible inacc false fields) parent path tns
+      = (if nl then Some JNull else None, [{| ge_kind := EK_TYPENAME; ge_path := push_names path p |}]) /\
+    prewalk deny (NObj p nl ty possible inacc false fields) parent path tns
+      = (parent, [{| ge_kind := EK_TYPENAME; ge_path := push_names path p |}], if nl then WOk else WErr) /\
+    forall is_root, render (NObj p nl ty possible inacc false fields) parent tns is_root = (b_null, false).
+Proof. exact abstract_without_typename_lemma. Qed.
+Print Assumptions abstract_without_typename.
+
+(* T9: a `__typename` leaf (String{IsTypeName:true} = [NStr]) renders the string of the data or null at a
+   nullable leaf, without error *)
+Theorem typename_leaf_string :
+  forall (deny : bytes -> bytes -> bool) p nl parent path tns t e,
+    complete deny (NStr p nl) parent path tns = (Some t, e) ->
+    e = [] /\ ((t = JNull /\ nl = true) \/ exists s, t = JStr s /\ get_path p parent = Some (JStr s)).
+Proof. exact typename_leaf_string_lemma. Qed.
+Print Assumptions typename_leaf_string.
+
+(* T10: a number / boolean / object / array at the leaf is rejected with EK_STRING at the leaf's path and
+   printed by neither pass *)
+Theorem typename_leaf_nonstring :
+  forall (deny : bytes -> bytes -> bool) p nl parent path tns x,
+    get_path p parent = Some x -> x <> JNull -> is_jstr x = false ->
+    complete deny (NStr p nl) parent path tns = (None, [{| ge_kind := EK_STRING; ge_path := push_names path p |}]) /\
+    prewalk deny (NStr p nl) parent path tns = (parent, [{| ge_kind := EK_STRING; ge_path := push_names path p |}], WErr) /\
+    forall is_root, render (NStr p nl) parent tns is_root = ([], true).
+Proof. exact typename_leaf_nonstring_lemma. Qed.
+Print Assumptions typename_leaf_nonstring.
+
+(* non-vacuity: account: Account (entity interface: PossibleTypes {Account, Admin, User}) with
+   id, ... on Admin { level }; data {"account":{"id":"1","level":3}} has no __typename:
+   {"account":null} and one EK_TYPENAME error at account; with "__typename":"Admin" both fields render *)
+Definition b_account : bytes := [97;99;99;111;117;110;116].
+Definition b_Account : bytes := [65;99;99;111;117;110;116].
+Definition b_Admin : bytes := [65;100;109;105;110].
+Definition b_User : bytes := [85;115;101;114].
+Definition b_id : bytes := [105;100].
+Definition b_level : bytes := [108;101;118;101;108].
+Definition ex_ei_plan : node :=
+  NObj [] false [81] [] [] false
+       [Fld b_account None None None
+            (NObj [b_account] true b_Account [b_Account; b_Admin; b_User] [] false
+                  [Fld b_id None None None (NStr [b_id] false);
+                   Fld b_level (Some [b_Admin]) None None (NInt [b_level] false)])].
+Definition ex_ei_data (tn : list (bytes * json)) : json :=
+  JObj [(b_account, JObj (tn ++ [(b_id, JStr [49]); (b_level, JNum [51])]))].
+Example c02_entity_interface_wf : root_wf ex_ei_plan = true.
+Proof. vm_compute. reflexivity. Qed.
+Example c02_entity_interface_abstract : is_abstract b_Account [b_Account; b_Admin; b_User] = true.
+Proof. reflexivity. Qed.
+Example c02_entity_interface_missing_typename :
+  complete_root (fun _ _ => false) ex_ei_plan (ex_ei_data [])
+    = (Some (JObj [(b_account, JNull)]), [{| ge_kind := EK_TYPENAME; ge_path := [PName b_account] |}]) /\
+  r_data (resolve (fun _ _ => false) ex_ei_plan (ex_ei_data [])) = marshal (JObj [(b_account, JNull)]).
+Proof. vm_compute. split; reflexivity. Qed.
+Example c02_entity_interface_nonstring_typename :
+  complete_root (fun _ _ => false) ex_ei_plan (ex_ei_data [(typename_key, JNum [55])])
+    = (Some (JObj [(b_account, JNull)]), [{| ge_kind := EK_TYPENAME; ge_path := [PName b_account] |}]).
+Proof. vm_compute. reflexivity. Qed.
+Example c02_entity_interface_typed :
+  complete_root (fun _ _ => false) ex_ei_plan (ex_ei_data [(typename_key, JStr b_Admin)])
+    = (Some (JObj [(b_account, JObj [(b_id, JStr [49]); (b_level, JNum [51])])]), []).
+Proof. vm_compute. reflexivity. Qed.
+
+(* non-vacuity: users: [User]! with User (concrete, PossibleTypes {User}) { __typename id };
+   data {"users":[{"__typename":"User","id":"1"},{"__typename":5,"id":"2"}]}:
+   {"users":[{"__typename":"User","id":"1"},null]} and one EK_STRING error at users.1.__typename *)
+Definition b_users : bytes := [117;115;101;114;115].
+Definition ex_tn_plan : node :=
+  NObj [] false [81] [] [] false
+       [Fld b_users None None None
+            (NArr [b_users] false
+                  (NObj [] true b_User [b_User] [] false
+                        [Fld typename_key None None None (NStr [typename_key] false);
+                         Fld b_id None None None (NStr [b_id] false)]))].
+Definition ex_tn_data : json :=
+  JObj [(b_users, JArr [JObj [(typename_key, JStr b_User); (b_id, JStr [49])];
+                        JObj [(typename_key, JNum [53]); (b_id, JStr [50])]])].
+Example c02_typename_leaf_wf : root_wf ex_tn_plan = true.
+Proof. vm_compute. reflexivity. Qed.
+Example c02_typename_leaf_nonstring :
+  complete_root (fun _ _ => false) ex_tn_plan ex_tn_data
+    = (Some (JObj [(b_users, JArr [JObj [(typename_key, JStr b_User); (b_id, JStr [49])]; JNull])]),
+       [{| ge_kind := EK_STRING; ge_path := [PName b_users; PIdx 1; PName typename_key] |}]) /\
+  r_errors (resolve (fun _ _ => false) ex_tn_plan ex_tn_data)
+    = [{| ge_kind := EK_STRING; ge_path := [PName b_users; PIdx 1; PName typename_key] |}].
 Proof. vm_compute. split; reflexivity. Qed.
